@@ -226,7 +226,7 @@ CLAIMED["C19"] = (
     "real macro next to the std method",
     "Exhaustive within bounds: 9 option:: + 9 result:: macros x both variants x payloads 0..2 x closure / path "
     "forms (value and whether the fallback closure ran; the std method evaluated in the same program as guard), "
-    "option::flatten!, try_!/try_opt! vs `?`, every rebind pattern of arity 1..4 (thorough 1..5) with each position "
+    "option::flatten!, try_!/try_opt! vs `?`, every rebind pattern of arity 1..5 (thorough 1..6) with each position "
     "a place / let / typed let / _ through try_rebind! and rebind_if_ok! (680 programs), and min!/max!/_by/_by_key "
     "on all key pairs with distinguishable identities: 848 programs per quick run.",
     "Trusted: TLC, rustc, the generator's closure library. Arity 6 rebinds are not generated.",
